@@ -1,7 +1,7 @@
 ------------------------------- MODULE LiquidAst -------------------------------
 (* Constructors for AST records (DESIGN.md appendix B), used by the focus      *)
 (* configurations MC_*.tla to write their pools.                               *)
-EXTENDS Sequences
+EXTENDS Sequences, TLC
 
 W0 == <<"", "">>                       \* no whitespace-control markers
 V(name)      == [k |-> "var", segs |-> <<[t |-> "k", v |-> name]>>]
@@ -81,6 +81,9 @@ LiquidTag(b) == [k |-> "liquid", body |-> b, wc |-> W0]
 
 Extends(name) == [k |-> "extends", name |-> name, wc |-> W0]
 Block(n, required, b) == [k |-> "block", n |-> n, required |-> required, body |-> b, endname |-> n, wc |-> W0, ewc |-> W0]
+
+\* the same node with its tag-level name written as a quoted string
+Quoted(n) == [qn |-> TRUE] @@ n
 
 \* configuration record (defaults of Environment)
 Cfg(trim, suppress, ae, undef) ==
